@@ -47,9 +47,10 @@ func runOSBase(c *Ctx, prop string) {
 	reset := func() {
 		os.RemoveAll(dir)
 		os.MkdirAll(filepath.Join(dir, "d"), 0o755)
+		os.MkdirAll(filepath.Join(dir, "empty"), 0o755) // an EMPTY directory: reading its handle fails with EISDIR
 		os.WriteFile(filepath.Join(dir, "f"), []byte("abc"), 0o644)
 		os.WriteFile(filepath.Join(dir, "d", "g"), []byte("defg"), 0o644)
-		for _, p := range []string{"f", "d/g", "d", ""} {
+		for _, p := range []string{"f", "d/g", "d", "empty", ""} {
 			os.Chtimes(filepath.Join(dir, p), old, old)
 		}
 	}
@@ -82,7 +83,7 @@ func runOSBase(c *Ctx, prop string) {
 				f |= b
 			}
 		}
-		for _, name := range []string{"/f", "/d/g", "/new", "/d"} {
+		for _, name := range []string{"/f", "/d/g", "/new", "/d", "/empty"} {
 			fs := mk()
 			func() {
 				defer func() { recover() }()
@@ -137,6 +138,10 @@ func runOSBase(c *Ctx, prop string) {
 		{"Chmod", func(fs afero.Fs) { fs.Chmod("/f", 0o600) }},
 		{"Chmod-dir", func(fs afero.Fs) { fs.Chmod("/d", 0o700) }},
 		{"Chtimes", func(fs afero.Fs) { fs.Chtimes("/d/g", old.Add(5*time.Second), old.Add(5*time.Second)) }},
+		{"Chmod-empty-dir", func(fs afero.Fs) { fs.Chmod("/empty", 0o700) }},
+		{"Chtimes-empty-dir", func(fs afero.Fs) { fs.Chtimes("/empty", old.Add(5*time.Second), old.Add(5*time.Second)) }},
+		{"Chown-empty-dir", func(fs afero.Fs) { fs.Chown("/empty", os.Getuid(), os.Getgid()) }},
+		{"Remove-empty-dir", func(fs afero.Fs) { fs.Remove("/empty") }},
 		{"Mkdir", func(fs afero.Fs) { fs.Mkdir("/m", 0o755) }},
 		{"MkdirAll", func(fs afero.Fs) { fs.MkdirAll("/d/m/n", 0o755) }},
 		{"Open-write", func(fs afero.Fs) {
